@@ -1230,7 +1230,7 @@ pub fn run(a: &Args) -> i32 {
         (3200, 16, 30000)
     };
     let full_shrinks_per_raw = if quick { 2 } else { 5 };
-    let deadline = if quick { 45.0 } else { 520.0 };
+    let deadline = if quick { 45.0 } else { 470.0 };
     // no files under Miri: only the component stage runs there
     let scratch_holder = if miri { None } else { Some(Scratch::new("c16")) };
     let scratch = scratch_holder.as_ref();
@@ -1239,6 +1239,84 @@ pub fn run(a: &Args) -> i32 {
     // raw signature (after statement shrinking) -> final signatures obtained by full (row) shrinking
     let mut raw_cache: HashMap<String, Vec<String>> = HashMap::new();
     let mut t_shrink_total = 0.0f64;
+
+    // component level: generic HashAggregateExecutor on materialized rows (also the Miri stage)
+    let mut comp_judged = 0u64;
+    for _ in 0..ncomp {
+        let c = gen_component_case(&mut rng);
+        ctx.eval();
+        let v = judge_component(&c, &c.world);
+        if !v.judged {
+            ctx.count("dropped_model_undecided", 1);
+            continue;
+        }
+        comp_judged += 1;
+        bump(&mut st.paths, "generic_executor");
+        let sql = Query::Select(c.sel.clone()).sql();
+        ctx.nontrivial(fnv(format!("generic|{}|{}", sql, c.world.tabs[0].1.len()).as_bytes()));
+        for (f, _) in &c.aggs {
+            bump(&mut st.judged_fn, &format!("generic_executor/{}", fn_name(*f)));
+        }
+        for f0 in &v.fails {
+            // shrink in memory: drop the grouping keys, drop the other aggregates, then rows (empty, one at a time)
+            let same = |c: &CompCase, w: &World| judge_component(c, w).fails.iter().find(|f| f.assertion == f0.assertion && f.func == f0.func).cloned();
+            let mut cc = CompCase { world: c.world.clone(), sel: c.sel.clone(), group_by: c.group_by.clone(), aggs: c.aggs.clone() };
+            let mut w = cc.world.clone();
+            for _round in 0..3 {
+                let before = (cc.group_by.len(), cc.aggs.len(), w.tabs[0].1.len());
+                if !cc.group_by.is_empty() {
+                    let nk = cc.group_by.len();
+                    let mut cand = CompCase { world: w.clone(), sel: cc.sel.clone(), group_by: vec![], aggs: cc.aggs.clone() };
+                    cand.sel.group_by.clear();
+                    cand.sel.items.drain(0..nk);
+                    if same(&cand, &w).is_some() {
+                        cc = cand;
+                    }
+                }
+                let mut ai = 0;
+                while cc.aggs.len() > 1 && ai < cc.aggs.len() {
+                    let nk = cc.group_by.len();
+                    let mut cand = CompCase { world: w.clone(), sel: cc.sel.clone(), group_by: cc.group_by.clone(), aggs: cc.aggs.clone() };
+                    cand.aggs.remove(ai);
+                    cand.sel.items.remove(nk + ai);
+                    if same(&cand, &w).is_some() {
+                        cc = cand;
+                    } else {
+                        ai += 1;
+                    }
+                }
+                let mut cand = w.clone();
+                cand.tabs[0].1.clear();
+                if same(&cc, &cand).is_some() {
+                    w = cand;
+                } else {
+                    let mut i = 0;
+                    while i < w.tabs[0].1.len() {
+                        let mut cand = w.clone();
+                        cand.tabs[0].1.remove(i);
+                        if same(&cc, &cand).is_some() {
+                            w = cand;
+                        } else {
+                            i += 1;
+                        }
+                    }
+                }
+                if before == (cc.group_by.len(), cc.aggs.len(), w.tabs[0].1.len()) {
+                    break;
+                }
+            }
+            let f2 = same(&cc, &w).unwrap_or_else(|| f0.clone());
+            let feats = features(&cc.sel).join("+");
+            let sig = format!("C16/{}/generic_executor/{}{}", f2.assertion, f2.cause, if feats.is_empty() { String::new() } else { format!("/{}", feats) });
+            bump(&mut st.sigs, &sig);
+            let aggs_txt: Vec<String> = cc.aggs.iter().map(|(f, i)| format!("{}(col {})", fn_name(*f), i)).collect();
+            if !st.example.contains_key(&sig) {
+                st.example.insert(sig.clone(), json!({"rows": rows_json(&w.tabs[0].1, 8), "columns": w.tabs[0].0.col_names(), "group_by_columns": cc.group_by, "aggregates": aggs_txt, "failure": f2.detail}));
+            }
+            ctx.violation(f0.assertion, &sig, json!({"component": "turdb::sql::executor::HashAggregateExecutor", "original_equivalent_sql": sql, "rows": rows_json(&w.tabs[0].1, 12), "group_by_columns": cc.group_by, "aggregates": aggs_txt, "minimal_failure": f2.detail, "original_failure": f0.detail}));
+        }
+    }
+    let t_component = ctx.elapsed();
 
     'worlds: for wi in 0..nworlds {
         if ctx.elapsed() > deadline {
@@ -1435,87 +1513,7 @@ pub fn run(a: &Args) -> i32 {
         }
     }
 
-    let t_main = ctx.elapsed();
-    // component level: generic HashAggregateExecutor on materialized rows (also the Miri stage)
-    let mut comp_judged = 0u64;
-    for _ in 0..ncomp {
-        if ctx.elapsed() > deadline + 10.0 {
-            break;
-        }
-        let c = gen_component_case(&mut rng);
-        ctx.eval();
-        let v = judge_component(&c, &c.world);
-        if !v.judged {
-            ctx.count("dropped_model_undecided", 1);
-            continue;
-        }
-        comp_judged += 1;
-        bump(&mut st.paths, "generic_executor");
-        let sql = Query::Select(c.sel.clone()).sql();
-        ctx.nontrivial(fnv(format!("generic|{}|{}", sql, c.world.tabs[0].1.len()).as_bytes()));
-        for (f, _) in &c.aggs {
-            bump(&mut st.judged_fn, &format!("generic_executor/{}", fn_name(*f)));
-        }
-        for f0 in &v.fails {
-            // shrink in memory: drop the grouping keys, drop the other aggregates, then rows (empty, one at a time)
-            let same = |c: &CompCase, w: &World| judge_component(c, w).fails.iter().find(|f| f.assertion == f0.assertion && f.func == f0.func).cloned();
-            let mut cc = CompCase { world: c.world.clone(), sel: c.sel.clone(), group_by: c.group_by.clone(), aggs: c.aggs.clone() };
-            let mut w = cc.world.clone();
-            for _round in 0..3 {
-                let before = (cc.group_by.len(), cc.aggs.len(), w.tabs[0].1.len());
-                if !cc.group_by.is_empty() {
-                    let nk = cc.group_by.len();
-                    let mut cand = CompCase { world: w.clone(), sel: cc.sel.clone(), group_by: vec![], aggs: cc.aggs.clone() };
-                    cand.sel.group_by.clear();
-                    cand.sel.items.drain(0..nk);
-                    if same(&cand, &w).is_some() {
-                        cc = cand;
-                    }
-                }
-                let mut ai = 0;
-                while cc.aggs.len() > 1 && ai < cc.aggs.len() {
-                    let nk = cc.group_by.len();
-                    let mut cand = CompCase { world: w.clone(), sel: cc.sel.clone(), group_by: cc.group_by.clone(), aggs: cc.aggs.clone() };
-                    cand.aggs.remove(ai);
-                    cand.sel.items.remove(nk + ai);
-                    if same(&cand, &w).is_some() {
-                        cc = cand;
-                    } else {
-                        ai += 1;
-                    }
-                }
-                let mut cand = w.clone();
-                cand.tabs[0].1.clear();
-                if same(&cc, &cand).is_some() {
-                    w = cand;
-                } else {
-                    let mut i = 0;
-                    while i < w.tabs[0].1.len() {
-                        let mut cand = w.clone();
-                        cand.tabs[0].1.remove(i);
-                        if same(&cc, &cand).is_some() {
-                            w = cand;
-                        } else {
-                            i += 1;
-                        }
-                    }
-                }
-                if before == (cc.group_by.len(), cc.aggs.len(), w.tabs[0].1.len()) {
-                    break;
-                }
-            }
-            let f2 = same(&cc, &w).unwrap_or_else(|| f0.clone());
-            let feats = features(&cc.sel).join("+");
-            let sig = format!("C16/{}/generic_executor/{}{}", f2.assertion, f2.cause, if feats.is_empty() { String::new() } else { format!("/{}", feats) });
-            bump(&mut st.sigs, &sig);
-            let aggs_txt: Vec<String> = cc.aggs.iter().map(|(f, i)| format!("{}(col {})", fn_name(*f), i)).collect();
-            if !st.example.contains_key(&sig) {
-                st.example.insert(sig.clone(), json!({"rows": rows_json(&w.tabs[0].1, 8), "columns": w.tabs[0].0.col_names(), "group_by_columns": cc.group_by, "aggregates": aggs_txt, "failure": f2.detail}));
-            }
-            ctx.violation(f0.assertion, &sig, json!({"component": "turdb::sql::executor::HashAggregateExecutor", "original_equivalent_sql": sql, "rows": rows_json(&w.tabs[0].1, 12), "group_by_columns": cc.group_by, "aggregates": aggs_txt, "minimal_failure": f2.detail, "original_failure": f0.detail}));
-        }
-    }
-    ctx.extra.insert("wall_seconds_by_stage".into(), json!({"sql_level_total": t_main, "of_which_shrinking": t_shrink_total, "generic_executor": ctx.elapsed() - t_main}));
+    ctx.extra.insert("wall_seconds_by_stage".into(), json!({"generic_executor": t_component, "sql_level_total": ctx.elapsed() - t_component, "of_which_shrinking": t_shrink_total}));
     ctx.count("generic_executor_cases", comp_judged);
     ctx.count("shrink_reexecutions", shr.tests);
     ctx.count("shrink_fresh_database_failed", shr.fresh_failed.len() as u64);
